@@ -15,7 +15,9 @@ func (e *Engine) execInstr(fr *frame, in ssa.Instruction, g *Term) {
 	case *ssa.Alloc:
 		et := x.Type().(*types.Pointer).Elem()
 		o := newObject(x.Comment, et, zeroValue(et))
-		fr.setReg(x, ptrTo(o), g)
+		ap := ptrTo(o)
+		ap.NonNil = true
+		fr.setReg(x, ap, g)
 	case *ssa.BinOp:
 		fr.setReg(x, e.binop(fr, x.Op, fr.val(x.X), fr.val(x.Y), x.X.Type(), x.Y.Type(), g, x.Pos()), g)
 	case *ssa.UnOp:
